@@ -25,6 +25,7 @@ RULE = ("check phase: every kind sequence up to length L (exhaustive) + random s
         "run phase: random histories of check/run calls of accepted pipelines on real images (1-3 scales) and "
         "unchecked illegal pipelines; mixed histories: 2-4 different pipelines checked/run in random order on ONE "
         "machine object, each outcome compared with the model and with the fresh-machine outcome; "
+        "second round: asymmetric image pair (left r,g,b / right r) x pipelines with and without validation; "
         "a case is non-trivial when its pipeline has >= 2 steps; distinct by "
         "(step names, validity pattern, history)")
 ASSUMES = [
@@ -340,6 +341,58 @@ def run_mixed(ctx, pandora, model, mixed, metaL, metaR, imgL, imgR):
             clean = o[0] in (0, 2)
 
 
+def run_second_round(ctx, model):
+    """The second round of check_conf (a validation step is present) checks every step with the two images EXCHANGED.
+    Left image with bands r, g, b, right image with the single band r: a semantic_segmentation step on the RGB
+    bands is valid for (left, right) and invalid for (right, left) -- the step would run on the right image too.
+    Such a pipeline is accepted iff it has no validation step (independent oracle), and the model is given the
+    two validities separately."""
+    from harness import pandora_util as pu_
+    metaL = pu_.meta_dataset(24, 28, (-2, 2), bands=["r", "g", "b"])
+    metaR = pu_.meta_dataset(24, 28, None, bands=["r"])
+    mc = {"matching_cost_method": "sad", "window_size": 3, "subpix": 1, "band": "r"}
+    seg = {"segmentation_method": "stub_seg", "RGB_bands": {"R": "r", "G": "g", "B": "b"}}
+    dsp = {"disparity_method": "wta", "invalid_disparity": -9999}
+    flt = {"filter_method": "median", "filter_size": 3}
+    val = {"validation_method": "cross_checking_accurate", "cross_checking_threshold": 1.0}
+    ref = {"refinement_method": "vfit"}
+    tails = [[], [("filter", flt)], [("validation", val)], [("filter", flt), ("validation", val)],
+             [("validation", val), ("refinement", ref)], [("validation.x", val), ("filter.1", flt)]]
+    rp = getattr(ctx, "replay_case", None)
+    if rp is not None:
+        tails = [[(n, c) for n, c in zip(rp["names"][3:], rp["cfgs"][3:])]]
+    cases, margs = [], []
+    for tail in tails:
+        steps = [("matching_cost", mc), ("semantic_segmentation", seg), ("disparity", dsp)] + tail
+        names = [n for n, _ in steps]
+        cfgs = [c for _, c in steps]
+        wire = [[i, pu_.kind_code_of_name(nm), True, nm != "semantic_segmentation"] for i, nm in enumerate(names)]
+        cases.append((names, cfgs))
+        margs.append((1, [wire, [0]]))
+    mres = model.batch(margs)
+    for (names, cfgs), mr in zip(cases, mres):
+        ctx.count("cases_second_round")
+        m = pu_.spy_machine()
+        try:
+            m.check_conf(pu_.deep_copy_cfg({"pipeline": dict(zip(names, cfgs))}), metaL, metaR)
+            out = 0
+        except Exception:  # pylint: disable=broad-except
+            out = 1
+        impl = [[out, real_summary(m), []]]
+        case = {"second_round": True, "names": names, "cfgs": cfgs}
+        ctx.case(("second_round", tuple(names)))
+        if impl != mr:
+            ctx.mismatch("machine_second_round", case, impl, mr)
+        has_val = any(nm.split(".")[0] == "validation" for nm in names)
+        if (out == 0) != (not has_val):
+            ctx.violation("second_round_images",
+                          f"left image with bands r,g,b, right image with band r only, pipeline {names}: the "
+                          f"segmentation step on the RGB bands is valid for the left image only; with"
+                          f"{'' if has_val else 'out'} a validation step (steps take effect on the right data too"
+                          f"{'' if has_val else ' only then'}) the pipeline must be "
+                          f"{'refused' if has_val else 'accepted'}, it was {'accepted' if out == 0 else 'refused'}", case)
+
+
 def run_symmetry(ctx, pandora, n):
     """'... on the left data and (when a validation step is present) symmetrically on the right data': the steps take
     effect on the right data as they do on the left data of the exchanged problem (the effect-level statement is
@@ -495,7 +548,10 @@ def run(ctx):
     mixed.insert(0, ([plA, plB], [[0, 0], [1, 1], [1, 0], [0, 1], [1, 1]]))
     mixed.insert(1, ([plA, plB], [[0, 1], [1, 0], [1, 1]]))
 
-    if getattr(ctx, "replay_case", None) is not None and ctx.replay_case.get("mixed"):
+    second_round_only = False
+    if getattr(ctx, "replay_case", None) is not None and ctx.replay_case.get("second_round"):
+        cases, mixed, second_round_only = [], [], True
+    elif getattr(ctx, "replay_case", None) is not None and ctx.replay_case.get("mixed"):
         rc = ctx.replay_case
         cases = []
         mixed = [(rc["pipelines"], rc["history"])]
@@ -522,7 +578,8 @@ def run(ctx):
         m = pu.spy_machine()
         impl = []
         cfg_checked = None
-        for c in hist:
+        first_exc = None
+        for pos, c in enumerate(hist):
             m.trace = []
             if c == 0:
                 try:
@@ -532,6 +589,8 @@ def run(ctx):
                 except Exception as exc:  # pylint: disable=broad-except
                     impl.append([1, real_summary(m), []])
                     ctx.count("impl_rejected_" + pu.exc_class(exc))
+                    if pos == 0:
+                        first_exc = pu.exc_class(exc)
             else:
                 try:
                     pandora.run(m, imgL, imgR, pu.deep_copy_cfg(user))
@@ -563,6 +622,14 @@ def run(ctx):
             if got and impl[0][1][:2] != [0, 0]:
                 ctx.violation("check_not_restored", f"after a successful check state/transitions = {impl[0][1]}",
                               {"names": names, "cfgs": cfgs})
+            # "any other pipeline is rejected with a sequencing error": a pipeline whose steps are all valid but
+            # whose names do not spell a documented path must leave check_conf as MachineError
+            if not got and all(oks) and not want:
+                ctx.count("ill_sequenced_rejections_class_checked")
+                if first_exc != "MachineError":
+                    ctx.violation("sequencing_error_class",
+                                  f"ill-sequenced pipeline {names} (every step valid) is rejected with {first_exc}, "
+                                  f"not with the sequencing error MachineError", {"names": names, "cfgs": cfgs})
         if ckind == "history" and doc_accepts(names, oks):
             n = max([c for c in hist if c > 0], default=1)
             rdm = any(nm.split(".")[0] == "validation" for nm in names)
@@ -580,6 +647,8 @@ def run(ctx):
                     ctx.violation("history_check", f"accepted pipeline {names}: a later check in history {hist} was refused",
                                   {"names": names, "cfgs": cfgs, "history": hist})
     run_mixed(ctx, pandora, model, mixed, metaL, metaR, imgL, imgR)
+    if getattr(ctx, "replay_case", None) is None or second_round_only:
+        run_second_round(ctx, model)
     if getattr(ctx, "replay_case", None) is None or ctx.replay_case.get("symmetry"):
         run_symmetry(ctx, pandora, 12 if quick else 120)
     ctx.stats["mixed_histories"] = len(mixed)
